@@ -276,6 +276,7 @@ def run_c04(ctx, rng, job):
     w = RW(ctx, rng, job['tier'], with_objs=True)
     big = job['tier'] == 'thorough'
     shapes = set()
+    asked = []
     for j in range(rng.randint(4, 40 if big else 25)):
         ri = rng.randrange(len(w.regs))
         req, prov, name = w.rand_key()
@@ -329,6 +330,44 @@ def run_c04(ctx, rng, job):
                 ctx.ev()
                 if g1 is not got:
                     ctx.violation('lookup1-differs', {'registry': li, 'required': nm(lreq), 'provided': nm(lprov), 'name': lname})
+            asked.append((li, lreq, lprov, lname, exp))
+            del asked[:-12]
+        if rng.random() < 0.25 and asked:
+            # "all interface/class hierarchies": the hierarchy of the looked-up specifications changes between two
+            # lookups of the same key (class declaration, object declaration, re-basing of a required interface);
+            # the winner is defined over the *current* resolution orders
+            kind = rng.choice(['class', 'object', 'bases'])
+            sel = rng.sample(w.R, rng.randint(1, min(2, len(w.R))))
+            if kind == 'class' and w.classes:
+                c = rng.choice(w.classes)
+                ctx.op('classImplements', c.__name__, nm(sel))
+                (classImplements if rng.random() < 0.7 else classImplementsOnly)(c, *sel)
+            elif kind == 'object' and w.objs:
+                o = rng.choice(w.objs)
+                ctx.op('directly/alsoProvides', o.zname, nm(sel))
+                (alsoProvides if rng.random() < 0.6 else directlyProvides)(o, *sel)
+            elif len(w.R) > 1:
+                i = rng.randrange(1, len(w.R))
+                nb = tuple(rng.sample(w.R[:i], rng.randint(0, min(2, i)))) or (Interface,)
+                ctx.op('rebase', w.R[i].__name__, nm(nb))
+                w.R[i].__bases__ = nb
+            ctx.count('hierarchy_changes')
+            for (li, lreq, lprov, lname, before) in asked:
+                # (an instance declaration remembered here stays a valid specification after the object got a
+                #  new one; its resolution order still follows its class)
+                exp, info = w.m_lookup(li, lreq, lprov, lname)
+                dflt = object()
+                got = w.regs[li].lookup(lreq, lprov, lname, dflt)
+                ctx.ev()
+                ctx.count('lookups_after_hierarchy_change')
+                if exp != before:
+                    ctx.count('winner_changed_by_hierarchy_change')
+                ok = (got is dflt) if exp == [None] else any(got is e for e in exp)
+                if not ok:
+                    ctx.violation('lookup-wrong-after-hierarchy-change',
+                                  {'registry': li, 'required': nm(lreq), 'provided': nm(lprov), 'name': lname,
+                                   'got': repr(got) if got is not dflt else 'default', 'expected_one_of': repr(exp),
+                                   'expected_before_change': repr(before), 'sros': [nm(r.__sro__) for r in lreq]})
         if rng.random() < 0.3:
             # registered(): exact key only
             rr = rng.randrange(len(w.regs))
